@@ -387,3 +387,149 @@ def const_index_stores(fn, views):
         if isinstance(idx, int) and not isinstance(idx, bool):
             out.append((b, pl["l"], idx, s["rv"]["x"]["v"]))
     return out
+
+
+IDX_CALLS = ("std::ops::Index::index", "std::ops::IndexMut::index_mut")
+SPLIT_CALLS = ("core::slice::<impl [T]>::split_at", "core::slice::<impl [T]>::split_at_mut")
+
+
+def view_span(fn, local, depth=14):
+    """(root, start): the storage a view local points into and the constant byte offset of the view's
+    first byte inside it (None if the offset is not a constant).  Follows reborrows, casts, pure views,
+    constant index ranges and split_at halves."""
+    from ..engines import RESLICE
+    from ..expr import expr_of_operand, call_arg_exprs, evaluate
+    cur = local
+    start = 0
+    for _ in range(depth):
+        cur = strip_reborrow(fn, cur)[-1]
+        d = def_sites(fn, cur)
+        if len(d) != 1:
+            break
+        if d[0][1] == "call":
+            c = d[0][2]
+            if not (c.args and c.args[0].get("k") in ("copy", "move")):
+                break
+            if c.path in IDX_CALLS and len(c.args) == 2:
+                rng = call_arg_exprs(c)[1]
+                if rng.k == "agg" and rng.a:
+                    nm = rng.a.split("::")[-1]
+                    vals = [evaluate(o, {}) for o in (rng.c or [])]
+                    lo = 0 if nm in ("RangeTo", "RangeFull", "RangeToInclusive") else (vals[0] if vals else None)
+                    if isinstance(lo, int) and not isinstance(lo, bool) and start is not None:
+                        start += lo
+                    else:
+                        start = None
+                else:
+                    start = None
+                cur = c.args[0]["l"]
+                continue
+            local_view = fn.prog is not None and c.rkey in fn.prog.reslicers
+            if c.path in RESLICE or c.rpath in RESLICE or c.path in OPTION_ADAPTERS or local_view:
+                if c.path in SPLIT_CALLS:
+                    break       # reached through a tuple field below
+                if c.path in NARROWING or (local_view and c.rkey in fn.prog.narrowing_reslicers):
+                    start = None
+                cur = c.args[0]["l"]
+                continue
+            break
+        rv = d[0][2]["rv"]
+        src = None
+        if rv["k"] == "use" and rv["x"].get("k") in ("copy", "move"):
+            src = rv["x"]
+        elif rv["k"] in ("ref", "rawptr"):
+            src = rv["place"]
+        if src is None or src["l"] == cur:
+            break
+        through = agg_field(fn, src)
+        if through is not None:
+            cur = through
+            continue
+        flds = [pe for pe in src["p"] if isinstance(pe, dict) and "f" in pe]
+        narrowing = [pe for pe in src["p"] if isinstance(pe, dict) and ("sub_from" in pe or "idx" in pe or "cidx" in pe)]
+        if narrowing:
+            start = None
+        if len(flds) == 1 and not narrowing:
+            # half of a split_at result?
+            base = strip_reborrow(fn, src["l"])[-1]
+            dd = def_sites(fn, base)
+            if len(dd) == 1 and dd[0][1] == "call" and dd[0][2].path in SPLIT_CALLS:
+                sc = dd[0][2]
+                k = evaluate(call_arg_exprs(sc)[1], {})
+                if flds[0]["f"] == 1:
+                    if isinstance(k, int) and not isinstance(k, bool) and start is not None:
+                        start += k
+                    else:
+                        start = None
+                cur = sc.args[0]["l"]
+                continue
+        cur = src["l"]
+    return cur, start
+
+
+def cut_points(prog, f):
+    """{root_local: set of constant absolute offsets at which a view of root is cut} for every index
+    range / split_at in f (closures included are NOT followed; pass an inlined view).  Offsets are
+    relative to the root storage, so `split_at(32)` followed by `.1.split_at(16)` cuts at 32 and 48,
+    exactly like `[..32]`, `[32..48]`, `[48..]`."""
+    from ..expr import call_arg_exprs, evaluate
+    out = {}
+    for c in f.calls():
+        if not (c.args and c.args[0].get("k") in ("copy", "move")):
+            continue
+        if c.path in IDX_CALLS and len(c.args) == 2:
+            root, s0 = view_span(f, c.args[0]["l"])
+            rng = call_arg_exprs(c)[1]
+            if rng.k == "agg" and rng.c is not None and s0 is not None:
+                for o in rng.c:
+                    v = evaluate(o, {})
+                    if isinstance(v, int) and not isinstance(v, bool) and s0 + v != 0:
+                        out.setdefault(root, set()).add(s0 + v)
+        elif c.path in SPLIT_CALLS and len(c.args) == 2:
+            root, s0 = view_span(f, c.args[0]["l"])
+            v = evaluate(call_arg_exprs(c)[1], {})
+            if isinstance(v, int) and not isinstance(v, bool) and s0 is not None and s0 + v != 0:
+                out.setdefault(root, set()).add(s0 + v)
+    return out
+
+
+def absorb_sequence(f, calls, argidx=1):
+    """Ordered list of (root_local, call, anchor_block) of what a sequence of absorbing calls (hash/MAC updates)
+    takes in: calls are ordered by dominance; a call inside `for part in [a, b, c] { h.update(part) }`
+    (its operand is the element of an iteration over an array built from a, b, c) expands to a, b, c in
+    that order.  Returns None if the order of two calls is not fixed by dominance."""
+    from ..expr import expr_of_operand, call_arg_exprs
+    cs = sorted(calls, key=lambda c: (len(f.dom.get(c.bb, ())), c.bb))
+    for i in range(len(cs) - 1):
+        if cs[i].bb not in f.dom.get(cs[i + 1].bb, ()) or cs[i].bb == cs[i + 1].bb:
+            return None
+    out = []
+    for c in cs:
+        e = call_arg_exprs(c)[argidx] if len(c.args) > argidx else None
+        expanded = None
+        x = e
+        while x is not None and x.k == "call" and x.a.name in ("as_ref", "as_slice", "deref", "borrow") and x.a.args:
+            x = call_arg_exprs(x.a)[0]
+        if x is not None and x.k == "field" and x.b == "Some.0" and x.a.k == "call" and x.a.a.name == "next":
+            it = call_arg_exprs(x.a.a)[0]
+            hops = 0
+            while it is not None and it.k == "call" and it.a.name in ("into_iter", "iter", "copied", "cloned") and it.a.args and hops < 4:
+                it = call_arg_exprs(it.a)[0]
+                hops += 1
+            if it is not None and it.k == "agg" and it.a == "array" and it.c:
+                expanded = []
+                for o in it.c:
+                    y = o
+                    while y is not None and y.k in ("cast",):
+                        y = y.a
+                    while y is not None and y.k == "call" and y.a.name in ("as_ref", "as_slice", "deref", "borrow") and y.a.args:
+                        y = call_arg_exprs(y.a)[0]
+                    expanded.append(y.a if y is not None and y.k == "local" else None)
+        if expanded is not None:
+            # anchor = the block of the iterator's next(): it runs once per element plus once at the end,
+            # so it (not the loop body) is what dominates the code after the loop
+            out += [(r, c, x.a.a.bb) for r in expanded]
+        else:
+            ls = list(operand_locals(c.args[argidx])) if len(c.args) > argidx else []
+            out.append((view_info(f, ls[0])[0] if ls else None, c, c.bb))
+    return out
